@@ -633,3 +633,68 @@ func guardedNonNil(b *ssa.BasicBlock, succ map[[2]int]bool) bool {
 	}
 	return !ssau.ReachableAvoidingEdges(b.Parent(), b, fail)
 }
+
+// commandLoader: the function of package database that reads a file and
+// decodes it into a command list (LoadDatabase, or the helper it delegates to).
+func commandLoader(c *Ctx) *ssa.Function {
+	var out *ssa.Function
+	for _, fn := range shippedFuncs(c) {
+		if pk := c.P.PkgOfFunc(fn); pk == nil || pk.PkgPath != dbPkg || fn.Parent() != nil {
+			continue
+		}
+		if len(callsTo(fn, "os.ReadFile")) > 0 && len(callsTo(fn, "gopkg.in/yaml.v3.Unmarshal")) > 0 {
+			out = fn
+		}
+	}
+	return out
+}
+
+// loadCall is a call that loads one command file: of the loader itself
+// (result: the list) or of a wrapper around it (result: a *Database).
+type loadCall struct {
+	call *ssa.Call
+	path ssa.Value
+	list bool // the result is the command list itself
+}
+
+// commands reports whether v is the command list this load produced: the
+// list result, or the Commands field of the database result.
+func (l loadCall) commands(v ssa.Value) bool {
+	res := resultValue(l.call, 0)
+	if l.list {
+		return v == res
+	}
+	base, ok := ssau.IsFieldLoad(v, dbType, "Commands")
+	return ok && base == res
+}
+
+// loadCalls lists, in source order, the calls in fn that load a command file.
+func loadCalls(c *Ctx, fn *ssa.Function) []loadCall {
+	ld := commandLoader(c)
+	var out []loadCall
+	var calls []*ssa.Call
+	ssau.ForEachInstr(fn, false, func(in ssa.Instruction) {
+		if call, ok := in.(*ssa.Call); ok {
+			calls = append(calls, call)
+		}
+	})
+	sortCallsByPos(calls)
+	for _, call := range calls {
+		g := call.Common().StaticCallee()
+		if g == nil || ld == nil || len(call.Common().Args) == 0 {
+			continue
+		}
+		switch {
+		case g == ld:
+			out = append(out, loadCall{call, call.Common().Args[0], g.Signature.Results().Len() > 0 && !isPtr(g.Signature.Results().At(0).Type())})
+		case len(callsTo(g, ssau.FuncName(ld))) > 0 && c.P.PkgOfFunc(g) != nil && c.P.PkgOfFunc(g).PkgPath == dbPkg && g != fn && len(g.Params) == 1:
+			out = append(out, loadCall{call, call.Common().Args[0], false})
+		}
+	}
+	return out
+}
+
+func isPtr(t types.Type) bool {
+	_, ok := t.Underlying().(*types.Pointer)
+	return ok
+}
